@@ -25,6 +25,16 @@ def sl(x, o='vec'): return ('sl', x, o)
 def opt(x): return ('opt', x)
 def res(x, y): return ('res', x, y)
 def tup2(x, y): return ('tup2', x, y)
+def tupn(*xs):
+    """the flat Rust tuple region of arity len(xs) >= 3 (TupleABCRegion, ...), MODELLED as right-nested pairs: the
+    expression is a 'tup2' whose second component is a 'tup2', marked 'flat'; everything on the model / oracle
+    side sees nested pairs, only the Rust type and the input-form glue see the flat tuple (harness: flat_tuple_h)"""
+    if len(xs) == 2: return tup2(*xs)
+    return ('tup2', xs[0], tupn(*xs[1:]), 'flat')
+def flat_components(e):
+    """components of the Rust tuple region a 'tup2' expression stands for"""
+    if len(e) > 3 and e[3] == 'flat': return [e[1]] + flat_components(e[2])
+    return [e[1], e[2]]
 def col(x): return ('col', x)
 def con(x, o='iopt'): return ('con', x, o)
 def cols(x, o='iopt'): return ('cols', x, o)
@@ -86,6 +96,10 @@ ENTRIES = [
     ('sl_vecr_u32', sl(vecr('u32'))),
     ('opt_vecr_u64', opt(vecr('u64'))),
     ('res_vecr_u8_vecr_u16', res(vecr('u8'), vecr('u16'))),
+    # flat tuple regions of arity 3 and 5 (modelled as right-nested pairs, see tupn)
+    ('tup3_str_mir_u64_sl_own_u8', tupn(STR, mir('u64'), sl(own('u8')))),
+    ('sl_tup3_mir_u8_str_opt', sl(tupn(mir('u8'), STR, opt(mir('u16'))))),
+    ('tup5_mir_str_own_opt_col', tupn(mir('u8'), STR, own('u16'), opt(STR), col(STR))),
 ]
 
 # FlatStack<R, S> entries: name -> (region expression, index container)
@@ -106,6 +120,7 @@ FS_ENTRIES = [
     ('fs_con_sl_str_iopt', con(sl(STR), 'iopt'), 'iopt'),
     ('fs_strof_cdc_vec', strof(CDC), 'vec'),
     ('fs_con_strof_cdc_iopt', con(strof(CDC), 'iopt'), 'iopt'),
+    ('fs_tup3_vec', tupn(STR, mir('u64'), sl(own('u8'))), 'vec'),
 ]
 
 def by_name(): return dict(ENTRIES)
@@ -176,7 +191,9 @@ def rust_type(e):
         x = rust_type(e[1]); return f'SliceRegion<{x}, {rust_ic(e[2], f"<{x} as Region>::Index")}>'
     if k == 'opt': return f'OptionRegion<{rust_type(e[1])}>'
     if k == 'res': return f'ResultRegion<{rust_type(e[1])}, {rust_type(e[2])}>'
-    if k == 'tup2': return f'TupleABRegion<{rust_type(e[1])}, {rust_type(e[2])}>'
+    if k == 'tup2':
+        cs = flat_components(e)
+        return f'Tuple{"ABCDE"[:len(cs)]}Region<' + ', '.join(rust_type(c) for c in cs) + '>'
     if k == 'col': return f'CollapseSequence<{rust_type(e[1])}>'
     if k == 'con': return f'ConsecutiveIndexPairs<{rust_type(e[1])}, {rust_ic(e[2], "usize")}>'
     if k == 'cols': return f'ColumnsRegion<{rust_type(e[1])}, {rust_ic(e[2], "usize")}>'
@@ -265,10 +282,11 @@ def elem_views(e):
         return out
     if k == 'tup2':
         out = [('ref', lambda v: v, True)] if ref_ok(e) else []
-        va = [x for x in elem_views(e[1]) if x[2]]; vb = [x for x in elem_views(e[2]) if x[2]]
-        for i in range(min(4, max(len(va), len(vb)))):
-            na, fa, _ = va[i % len(va)]; nb, fb, _ = vb[i % len(vb)]
-            out.append((f'tup_{na}_{nb}', (lambda fa, fb: lambda v: f'({fa(f"&{P(v)}.0")}, {fb(f"&{P(v)}.1")})')(fa, fb), True))
+        vs = [[x for x in elem_views(c) if x[2]] for c in flat_components(e)]
+        for i in range(min(4, max(len(v) for v in vs))):
+            pick = [v[i % len(v)] for v in vs]
+            out.append(('tup_' + '_'.join(p[0] for p in pick),
+                        (lambda pick: lambda v: '(' + ', '.join(p[1](f'&{P(v)}.{j}') for j, p in enumerate(pick)) + ')')(pick), True))
         return out
     if k == 'con':
         return elem_views(e[1])
